@@ -471,7 +471,7 @@ func (b *BootGuard) SignBPM(signAlgo, hashAlgo string, privkey crypto.PrivateKey
 		if err != nil {
 			return nil, err
 		}
-		unsignedBPM := buf.Bytes()[:b.VData.BGbpm.PMSE.KeySignatureOffset()]
+		unsignedBPM := buf.Bytes()[:b.VData.BGbpm.PMSEOffset()]
 		if err := b.VData.BGbpm.PMSE.SetSignature(signAlgo, privkey.(crypto.Signer), unsignedBPM); err != nil {
 			return nil, err
 		}
